@@ -70,7 +70,19 @@ impl Manager for SimManager {
 
     fn detach(&self, obj: &mut SimObj) {
         let id = obj.id;
-        try_with_w(|w| w.on_detach(id));
+        let mut boom = false;
+        try_with_w(|w| {
+            w.on_detach(id);
+            if w.detach_panic_for.contains(&id) {
+                w.detach_panic_for.retain(|x| *x != id);
+                boom = true;
+            }
+        });
+        if boom {
+            // only ever armed for the object an Object::take() in progress is letting go of
+            with_w(|w| w.cnt.fault("detach_panics_in_take"));
+            std::panic::panic_any(InjectedPanic(id));
+        }
     }
 }
 
@@ -323,6 +335,8 @@ pub struct MWorld {
     pub n_calls: [usize; 5],
     pub draining: bool,
     pub pending_violation: Option<Violation>,
+    /// object whose next `Manager::detach` panics (armed by a Take op with `detach_panics`)
+    pub detach_panic_for: Vec<u32>,
     pub cnt: Counters,
     pub ops_done: u32,
     pub all_handles_dropped: bool,
@@ -389,6 +403,7 @@ impl MWorld {
             n_calls: [0; 5],
             draining: false,
             pending_violation: None,
+            detach_panic_for: Vec::new(),
             cnt: Counters::default(),
             ops_done: 0,
             all_handles_dropped: false,
@@ -1221,7 +1236,7 @@ pub fn run_op(actor: usize, idx: usize, op: Op, pool: &mut Option<SPool>) {
                 crate::moracle::on_return_done(w, opi, id);
             });
         }
-        Op::Take { slot } => {
+        Op::Take { slot, detach_panics } => {
             let Some(obj) = take_held(actor, slot) else { return };
             let id = obj.id;
             let opi = with_w(|w| {
@@ -1229,6 +1244,9 @@ pub fn run_op(actor: usize, idx: usize, op: Op, pool: &mut Option<SPool>) {
                 w.ops[opi].target = Some(id);
                 w.objs[id as usize].taken = true;
                 w.objs[id as usize].holder = None;
+                if detach_panics {
+                    w.detach_panic_for.push(id);
+                }
                 crate::moracle::on_take_invoke(w, opi, id);
                 opi
             });
@@ -1242,6 +1260,7 @@ pub fn run_op(actor: usize, idx: usize, op: Op, pool: &mut Option<SPool>) {
                 Err(e) => e,
             };
             with_w(|w| {
+                w.detach_panic_for.retain(|x| *x != id);
                 w.op_return(opi, res);
                 crate::moracle::on_take_done(w, opi, id);
             });
